@@ -56,6 +56,22 @@ func TestVF_C10_RoundTrip(t *testing.T) {
 		}
 		env := &vfc10gen.Env{Bounded: rapid.Bool().Draw(t, "bounded"), Topics: []string{"orders", "payments"}, Groups: []string{"g1"}, Members: []string{"m1", ""}}
 		sh := vfc10gen.Fill(t, req, env)
+		if pr, ok := req.(*kmsg.ProduceRequest); ok && rapid.IntRange(0, 7).Draw(t, "big-produce") == 0 {
+			// a Produce request of more than 1 MiB (2 MiB, ...) is legal and routine
+			n := rapid.SampledFrom([]int{1<<20 + 100, 2<<20 + 5, 3 << 20}).Draw(t, "records-bytes")
+			rec := make([]byte, n)
+			for j := range rec {
+				rec[j] = byte(j*31) + byte(j>>8)*7 + byte(j>>16)*13 + byte(j>>20)*101
+			}
+			tp := kmsg.NewProduceRequestTopic()
+			tp.Topic = "orders"
+			pp := kmsg.NewProduceRequestTopicPartition()
+			pp.Records = rec
+			tp.Partitions = append(tp.Partitions, pp)
+			pr.Topics = append(pr.Topics, tp)
+			sh.NonEmptyArrays++
+			st.Class("request>1MiB")
+		}
 		body := req.AppendTo(nil)
 		corr := rapid.Int32().Draw(t, "corr")
 
